@@ -45,11 +45,15 @@ def dense_stacks(rng, n):
             for v in vs:
                 both(v)
         elif how == 3:
+            # merge_capacity also sizes the region from the source: the twin is merged from a twin source
             b.new("s0")
+            b.raw("new ts %s" % cat["entry"], ("eq", "ok"))
             for _ in range(1 + rng.below(6)):
                 v = b.value()
                 b.push("s0", v, b.form_for(v))
+                b.raw("push ts %s %s" % (canon, b.r(v)), ("prefix", "idx"), cmp="status", shape="twin")
             b.merge("a", ["s0"])
+            b.raw("merge t %s ts" % cat["entry"], ("eq", "ok"), shape="merge1")
         for _ in range(3 + rng.below(40)):
             r = rng.below(8)
             if r == 0:
